@@ -140,7 +140,7 @@ def engine_ksched(pid, tier, seed, res, max_n=None):
     n_bad = 0
     for ci, c in enumerate(cases):
         for _ in range(reps if ci >= corpus_n else 2):
-            rec = ksched.run_case(c, sched_seed=rng.random())
+            rec = ksched.run_case_checked(c, sched_seed=rng.random())
             records.append(rec)
             n_bad += sum(1 for run in rec["runs"] if run["broken"] or run["status"] == "hang")
         if n_bad >= 4:
